@@ -228,6 +228,8 @@ def compare(alone, after):
     "None if the target's observable outcome is the same in both processes, else a violation dict"
     if alone['outcome'] == 'budget' or after['outcome'] == 'budget':
         return None
+    if alone['outcome'] == 'timeout':
+        return None         # the election under test does not finish even in a pristine process: not C20's subject
     if alone['outcome'] != after['outcome']:
         return dict(cls='history-dependence', what='outcome',
                     msg='alone: %s %s; after history: %s %s' % (alone['outcome'], alone.get('exc', ''),
@@ -520,16 +522,30 @@ def _target_key(texts, target):
                               target['render'], target.get('via'), target.get('call'))).encode()).hexdigest()
 
 
+SESSION_WALL = 150.0       # seconds for the target alone (sessions take milliseconds, wide ones seconds)
+
+
+def _timed(fn, args, timeout, what):
+    "fork_call, but a child that runs into the wall-clock limit is an outcome ('timeout'), not a harness error"
+    from .core import ChildFailed       # pylint: disable=import-outside-toplevel
+    try:
+        return fork_call(fn, args, timeout=timeout, what=what)
+    except ChildFailed as e:
+        if 'wall-clock limit' in str(e):
+            return dict(outcome='timeout', log=[['session', 'timeout']], fp=None)
+        raise
+
+
 def run_session(R, sess, alone_cache=None, want_fp=True):
     "both sides of one session; returns (violation or None, info)"
     texts, ops, target = sess['texts'], sess['ops'], sess['target']
     key = _target_key(texts, target)
     alone = alone_cache.get(key) if alone_cache is not None else None
     if alone is None:
-        alone = fork_call(exec_session, (R, texts, [], target, want_fp), timeout=300, what='C20 target alone')
+        alone = _timed(exec_session, (R, texts, [], target, want_fp), SESSION_WALL, 'C20 target alone')
         if alone_cache is not None:
             alone_cache[key] = alone
-    after = fork_call(exec_session, (R, texts, ops, target, want_fp), timeout=600, what='C20 history')
+    after = _timed(exec_session, (R, texts, ops, target, want_fp), 2 * SESSION_WALL, 'C20 history')
     v = compare(alone, after)
     info = dict(outcome=alone['outcome'], log=after['log'])
     if want_fp and alone.get('fp') is not None and after.get('fp') is not None:
